@@ -469,6 +469,7 @@ class FunctionExtractor:
             self.ed.replace(b, sb, 'free(')
             self.ed.insert(e, ')')
             self.rules.append('R4')
+            self.walk(sub)
         else:
             # delete p  ->  (T__dtor(p), free(p))
             t = sub
